@@ -371,7 +371,8 @@ Qed.
 
 Lemma update_hashpart : forall c st s, eq_free_vec (s_ids s) -> HashPart c st s -> HashPart c st (update c st s).
 Proof.
-  intros c st s F H. unfold update. destruct (negb (a_has_model (s_ann s))); [assumption|].
+  intros c st s F H. unfold update.
+  destruct (negb (a_has_model (s_ann s))); [left; reflexivity|].
   destruct (opt_str_eqb (a_hash (s_ann s)) (hash_string c st (s_ids s))); [assumption|].
   right. exists (s_ids s). split; [assumption|]. split; reflexivity.
 Qed.
